@@ -24,6 +24,25 @@ func vpTree(n int) []*Node {
 		depth[i] = depth[p] + 1
 		nodes[p].Children = append(nodes[p].Children, nodes[i])
 	}
+	// flat=1: every node's Children is a sub-slice of ONE backing array, the
+	// lists lying one after the other (a tree built by slicing one node
+	// list): the spare capacity of each list is the next node's list, so an
+	// append to a Children slice overwrites a sibling's children
+	if vpCaseOr("flat", 0) == 1 {
+		var flat []*Node
+		for _, nd := range nodes {
+			flat = append(flat, nd.Children...)
+		}
+		flat = append(flat, nil, nil)
+		off := 0
+		for _, nd := range nodes {
+			k := len(nd.Children)
+			if k > 0 {
+				nd.Children = flat[off : off+k]
+			}
+			off += k
+		}
+	}
 	// leaves: Children nil (as the Reader builds them), or an empty non-nil
 	// slice (a node built with Children: []*Node{} or pruned with
 	// Children[:0]); emptyKids=1 all leaves, 2 a nondeterministic subset
@@ -77,14 +96,24 @@ func VP_C19_Traverse() {
 	}
 	var pre, post []*Node
 	preSeq, postSeq := root.PreOrder(), root.PostOrder()
+	// (a traversal that never ends is cut off after 4n+8 nodes and fails the
+	// comparison; the reference traversals run on the snapshot taken before)
+	limit := 4*n + 8
+	wantPre, wantPost := vpPre(root, nil), vpPost(root, nil)
 	for nd := range preSeq {
 		pre = append(pre, nd)
+		if len(pre) > limit {
+			break
+		}
 	}
 	for nd := range postSeq {
 		post = append(post, nd)
+		if len(post) > limit {
+			break
+		}
 	}
-	vpAssert(vpSameNodes(pre, vpPre(root, nil)), "PreOrder equals the recursive pre-order")
-	vpAssert(vpSameNodes(post, vpPost(root, nil)), "PostOrder equals the recursive post-order")
+	vpAssert(vpSameNodes(pre, wantPre), "PreOrder equals the recursive pre-order")
+	vpAssert(vpSameNodes(post, wantPost), "PostOrder equals the recursive post-order")
 	// the iterator values are functions: ranging over the same value again is
 	// another complete traversal
 	var pre2, post2 []*Node
@@ -97,9 +126,15 @@ func VP_C19_Traverse() {
 	}
 	for nd := range preSeq {
 		pre2 = append(pre2, nd)
+		if len(pre2) > limit {
+			break
+		}
 	}
 	for nd := range postSeq {
 		post2 = append(post2, nd)
+		if len(post2) > limit {
+			break
+		}
 	}
 	vpAssert(vpSameNodes(pre2, pre) && vpSameNodes(post2, post), "ranging over the same iterator value again gives the same traversal")
 	vpAssert(len(pre) == n && len(post) == n, "every node exactly once")
